@@ -172,15 +172,26 @@ func runC06(c *core.Ctx) {
 	}
 	c.Count("window_items", len(items))
 
-	// (2) keywords
-	T := gen.Date{Y: 2021, M: 3, D: 31}
-	var kwDays []gen.Date
-	for _, off := range []int{-31, -30, -8, -7, -1, 0, 1} {
-		kwDays = append(kwDays, T.AddDays(off))
+	// (2) keywords; --today values also right after DST changes, zones with DST included
+	kwZones := append([]string{}, c06Zones...)
+	for _, z := range []string{"America/New_York", "Europe/Berlin", "Australia/Sydney", "America/Havana"} {
+		if _, err := os.Stat(filepath.Join("/usr/share/zoneinfo", z)); err == nil {
+			kwZones = append(kwZones, z)
+		}
 	}
 	kws := map[string]int{"today": 0, "yesterday": -1, "last7": -7, "last30": -30}
 	kwNames := []string{"today", "yesterday", "last7", "last30"}
-	for li := 0; li < c.N(1, 3); li++ {
+	Ts := []gen.Date{{Y: 2021, M: 3, D: 31}, {Y: 2021, M: 3, D: 15}, {Y: 2021, M: 4, D: 5}, {Y: 2021, M: 11, D: 8}, {Y: 2021, M: 3, D: 14}, {Y: 2021, M: 10, D: 4}}
+	var T gen.Date
+	var kwDays []gen.Date
+	for li := 0; li < c.N(3, 12); li++ {
+		T = Ts[li%len(Ts)]
+		kwDays = nil
+		for _, off := range []int{-31, -30, -8, -7, -2, -1, 0, 1} {
+			kwDays = append(kwDays, T.AddDays(off))
+		}
+		kwDays := kwDays
+		T := T
 		r := c.Rng("kw", li)
 		log := c06Log(r, kwDays, 9+r.Intn(4))
 		opts := []string{"", "today", "yesterday", "last7", "last30", "date"}
@@ -193,7 +204,7 @@ func runC06(c *core.Ctx) {
 					if (ci+len(bo)+len(eo)+li)%4 != 0 && c.Quick() {
 						continue
 					}
-					it := item{log: log, layout: layoutDefault, today: T, cmd: cmd, label: "keyword", zones: c06Zones}
+					it := item{log: log, layout: layoutDefault, today: T, cmd: cmd, label: "keyword", zones: []string{kwZones[(ci+li+len(bo))%len(kwZones)], kwZones[(ci+2*li+len(eo)+3)%len(kwZones)]}}
 					set := func(o string) (*gen.Date, *string) {
 						switch o {
 						case "":
